@@ -242,9 +242,14 @@ class RollbackFailureManager(FailureManager):
         job_tokens = list(
             filter(lambda t: isinstance(t, JobToken), mapper.token_instances.values())
         )
+        # Process the failed job first, so that its retry counter always advances
+        # (and eventually stops the recovery) even when the rollback of another job
+        # cannot be performed because that job exhausted its retries
         retry_requests = [
             self.get_request(job_name)
-            for job_name in {*(t.value.name for t in job_tokens), failed_job.name}
+            for job_name in dict.fromkeys(
+                (failed_job.name, *(t.value.name for t in job_tokens))
+            )
         ]
         async with contextlib.AsyncExitStack() as exit_stack:
             for request in sorted(retry_requests, key=id):
